@@ -1,15 +1,13 @@
 #!/bin/bash
-# Offline setup: builds the overlay generator and pre-warms the Go build cache for the
-# verif-tagged (and -race) builds of the harness against /repo's current tree.
+# Offline setup: builds the overlay generator and pre-warms the Go build cache (verif-tagged
+# build of golang/geo with the sync shim, every property's harness, and the -race variant).
 set -e
 . /verif/bin/env.sh
 mkdir -p /verif/build /verif/evidence /verif/replays
 cd /verif/mc
 go build -o /verif/build/vinstr ./cmd/vinstr
-B=/verif/build/setup.$$
-mkdir -p "$B"; trap 'rm -rf "$B"' EXIT
-/verif/build/vinstr /repo /verif/shim "$B/overlay"
-sed "s#=> /repo#=> /repo#" go.mod > "$B/go.mod"; cp go.sum "$B/go.sum"
-go build -modfile "$B/go.mod" -tags verif -overlay "$B/overlay/overlay.json" -o "$B/vcheck" ./cmd/vcheck
-go build -race -modfile "$B/go.mod" -tags verif -overlay "$B/overlay/overlay.json" -o "$B/vcheck.race" ./cmd/vcheck
+for f in checks/c[0-9][0-9].go; do
+  p=$(basename "$f" .go | tr 'a-z' 'A-Z')
+  VERIF_BUILD_ONLY=1 bash /verif/bin/check "$p" quick >/dev/null || { echo "setup: build of $p failed"; VERIF_BUILD_ONLY=1 bash /verif/bin/check "$p" quick | tail -20; exit 1; }
+done
 echo "setup ok"
